@@ -116,6 +116,8 @@ func (c02) Gen(tier string, seed int64) []fw.Unit {
 		}
 		add("random-bytes", randBytes(r, n, pick(r, [][]byte{allAB, printAB, digitsAB, highAB, asciiAB})))
 	}
+	us = append(us, collideUnits(r, "dm", "datamatrix", printAB, 24)...)
+	us = append(us, collideUnits(r, "dm", "datamatrix", allAB, 40)...)
 	for _, s := range []string{"", "0", "00", "000", "0a0", "\x00", "\x7f", "\x80", "\xff", "\xff\xff", "9\xff9", "\xc3\x28", "é", "12\x8034", "\x8012", "1\x802"} {
 		add("special", []byte(s))
 	}
@@ -125,6 +127,9 @@ func (c02) Gen(tier string, seed int64) []fw.Unit {
 func dmObserve(c *fw.Ctx, req Req) (*refdec.DMResult, bool) {
 	inner := req.String()
 	c.Step(func() string { return inner })
+	if c.Res().Evals%7 == 0 {
+		poison("datamatrix", false)
+	}
 	o := req.call()
 	if !wellFormed(c, req.entryName(), inner, &o) {
 		if o.err != nil {
@@ -148,7 +153,16 @@ func dmObserve(c *fw.Ctx, req Req) (*refdec.DMResult, bool) {
 }
 
 func (p c02) Exec(c *fw.Ctx, u *fw.Unit) {
-	req := reqOfUnit(u)
+	if isCollide(u) {
+		for _, q := range splitCollide(u) {
+			p.one(c, q, u.Tag)
+		}
+		return
+	}
+	p.one(c, reqOfUnit(u), u.Tag)
+}
+
+func (p c02) one(c *fw.Ctx, req Req, tag string) {
 	c.Eval()
 	res, ok := dmObserve(c, req)
 	if !ok {
@@ -180,7 +194,7 @@ func (p c02) Exec(c *fw.Ctx, u *fw.Unit) {
 	if res.DigitPairs > 0 {
 		c.Cover("feature", "digit-pair")
 	}
-	c.Cover("tag", u.Tag)
+	c.Cover("tag", tag)
 	if c.Rand().Intn(60) == 0 {
 		c.Sample(map[string]any{"content": short(string(req.S)), "len": len(req.S), "size": res.Size, "data_codewords": len(res.DataCW), "pads": res.Pads})
 	}
